@@ -47,6 +47,7 @@ TABLE: list[tuple[str, str, bool, str, list[F]]] = [
         [
             F("text", "str", "prop", "str"),
             F("note", "str", "prop", "str", 'field(default="", compare=False)', compare=False),
+            F("tagged", "str", "prop", "str", 'field(default="", compare=False, hash=True)', compare=False),
             F("seq", "int", "prop", "int", "field(init=False, default=7)", init=False),
             F("hid", "int", "prop", "int", "field(init=False, compare=False, default=9)", compare=False, init=False),
             F("kw", "int", "prop", "int", "1"),
@@ -76,6 +77,7 @@ TABLE: list[tuple[str, str, bool, str, list[F]]] = [
     # field names that differ only in case (sort order must not depend on declaration order)
     ("CaseMix", "Expr", False, "", [F("k", "str", "prop", "str", '""'), F("K", "str", "prop", "str", '""'), F("c", "Expr | None", "opt", "any", "None"), F("C", "Expr | None", "opt", "any", "None")]),
     ("FS", "Expr", False, "", [F("s", "frozenset[str]", "prop", "fs")]),
+    ("FS2", "Expr", False, "", [F("ss", "frozenset[frozenset[int]]", "prop", "fs2")]),
     (
         "Pair",
         "Expr",
@@ -109,6 +111,10 @@ TABLE: list[tuple[str, str, bool, str, list[F]]] = [
         [],
     ),
     ("SeqPlus", "Seq", False, "", [F("extra", "Expr | None", "opt", "any", "None")]),
+    # a node class that is iterable (but not a Collection), used as the declared type of a single child field
+    ("IterBlock", "Seq", False, "    def __iter__(self):\n        return iter(self.items)\n", []),
+    ("IterBlock2", "IterBlock", False, "", [F("label", "str", "prop", "str", '""')]),
+    ("Loop", "Expr", False, "", [F("var", "str", "prop", "str", '"i"'), F("body", "IterBlock", "child", "iterblock")]),
     ("Carrier", "Expr", False, "", [F("tok", "Tok", "prop", "tok")]),
     # a bookkeeping field that differs between otherwise content-equal nodes
     ("Serial", "Expr", False, "", [F("name", "str", "prop", "str"), F("serial", "int", "prop", "int", "field(init=False, compare=False, default_factory=_next_serial)", compare=False, init=False)]),
@@ -267,10 +273,10 @@ CHILD_FIELDS: dict[str, list[F]] = _Tab({n: [f for f in fs if f.kind != "prop"] 
 PROP_FIELDS: dict[str, list[F]] = _Tab({n: [f for f in fs if f.kind == "prop"] for n, fs in FIELDS.items()})
 
 NODE_CLASSES = [n for n in _OWN if n != "Expr"]
-LEAF_CLASSES = ["LeafA", "LeafB", "LeafA2", "Meta", "Vals", "FS", "Carrier", "Serial", "Upper", "Lit", "Located", "Typed", "Dyn", "CaseMix", "Both"]
-INNER_CLASSES = ["Pair", "Seq", "Fixed", "Mixed", "Falsy", "SeqPlus"]
+LEAF_CLASSES = ["LeafA", "LeafB", "LeafA2", "Meta", "Vals", "FS", "Carrier", "Serial", "Upper", "Lit", "Located", "Typed", "Dyn", "CaseMix", "Both", "FS2"]
+INNER_CLASSES = ["Pair", "Seq", "Fixed", "Mixed", "Falsy", "SeqPlus", "Loop", "IterBlock", "IterBlock2"]
 
-def redefine_dyn() -> None:
+def redefine_dyn(keep: bool = False):
     """Define `Dyn` again in the same module: first an OLDER version of the class (one field less), which is
     instantiated once and dropped, then the current version.  Same module, same qualified name, three different class
     objects over the life of the process -- legal for pyoak (same module)."""
@@ -283,13 +289,32 @@ def redefine_dyn() -> None:
     n = M.Dyn(value=1)
     list(n.get_properties())
     list(n.get_child_nodes())
-    n.detach()
-    del n
+    if not keep:
+        n.detach()
+        n = None
     cur = next(t for t in TABLE if t[0] == "Dyn")
     flds = list(reversed(cur[4])) if PERMUTED else cur[4]
     src = "@dataclass(frozen=True, kw_only=True)\nclass Dyn(Expr):\n" + "".join(f"    {f.name}: {f.ann} = {f.default}\n" for f in flds)
     exec(compile(src, "<universe.v2 generated>", "exec"), M.__dict__)
     CLS["Dyn"] = M.Dyn
+    return n
+
+
+LATE_FIELDS = [F("a", "str", "prop", "str", '""'), F("kid", "Expr | None", "opt", "any", "None")]
+
+
+def define_late() -> None:
+    """A node class that comes into existence in the middle of a run (a plugin imported late): before this call its
+    name is unknown to pyoak, afterwards it is an ordinary class of the universe (not in NODE_CLASSES, so that the
+    generators never name it before it exists)."""
+    flds = list(reversed(LATE_FIELDS)) if PERMUTED else LATE_FIELDS
+    src = "@dataclass(frozen=True, kw_only=True)\nclass Late(Expr):\n" + "".join(f"    {f.name}: {f.ann} = {f.default}\n" for f in flds)
+    exec(compile(src, "<universe.v2 generated>", "exec"), M.__dict__)
+    CLS["Late"] = M.Late
+    MRO["Late"] = ["Late", "Expr"]
+    FIELDS["Late"] = list(LATE_FIELDS)
+    CHILD_FIELDS["Late"] = [f for f in LATE_FIELDS if f.kind != "prop"]
+    PROP_FIELDS["Late"] = [f for f in LATE_FIELDS if f.kind == "prop"]
 
 
 # ---- origins ----------------------------------------------------------------------------------------
@@ -380,6 +405,20 @@ PATH_POOL = ["a/b", "a", "/abs/x.txt", "a b/c"]
 LIT_POOL = ["x", "y"]
 TINT_POOL = [[], [0], [1, 2], [2, 1], [1, 2, 3], [0, 0]]
 TSI_POOL = [["k", 1], ["k", 2], ["", 0], ["1", 1]]
+def _colliding_singletons(n: int = 3) -> list[list[int]]:
+    """single-int frozensets falling into one slot of a small hash table: the iteration order of a frozenset of them
+    depends on the insertion order (hashes of frozensets of ints do not depend on the hash seed)"""
+    by_slot: dict[int, list[list[int]]] = {}
+    for k in range(1, 4000):
+        lst = by_slot.setdefault(hash(frozenset({k})) & 7, [])
+        lst.append([k])
+        if len(lst) == n:
+            return lst
+    raise RuntimeError("no colliding sets")
+
+
+_CS = _colliding_singletons()
+FS2_POOL = [[_CS[0], _CS[1], _CS[2]], [_CS[2], _CS[1], _CS[0]], [_CS[1], _CS[2], _CS[0]], [_CS[1], _CS[0]], [_CS[0], _CS[1]]] + [[], [[1]], [[1], [2]], [[2], [1]], [[1, 2], [3]], [[3], [1, 2]], [[1], [1, 2], [2]], [[2], [1, 2], [1]], [[8], [16], [0]], [[16], [8], [0]], [[1, 9], [9, 1, 17]], [[17, 1, 9], [9, 1]]]
 FS_POOL = [[], ["a"], ["a", "b"], ["b", "a"], ["x", "yy", "zzz"], ["zzz", "x", "yy"], ["8", "16", "0"], ["16", "8", "0"]]
 TOK_POOL = ["t", "u", ""]
 
@@ -399,6 +438,7 @@ def pool_for(vt: str) -> list[Any]:
         "fs": FS_POOL,
         "tok": TOK_POOL,
         "op": ["ADD", "SUB"],
+        "fs2": FS2_POOL,
     }[vt]
 
 
@@ -418,6 +458,14 @@ def decode(vt: str, j: Any) -> Any:
         return Tok(j)
     if vt == "op":
         return Op[j]
+    if vt == "fs2":
+        out: frozenset = frozenset()
+        for inner in j:  # built by successive unions, in the order given
+            fi: frozenset = frozenset()
+            for x in inner:
+                fi = fi | frozenset([x])
+            out = out | frozenset([fi])
+        return out
     raise KeyError(vt)
 
 
@@ -444,6 +492,8 @@ def encode(vt: str, v: Any) -> Any:
         return v.v
     if vt == "op":
         return v.name
+    if vt == "fs2":
+        return sorted(sorted(x) for x in v)
     raise KeyError(vt)
 
 
